@@ -48,7 +48,7 @@ def judge(ctx, run, meta, sched):
     _sched.judge_rules(ctx, run, meta, sched, RULES, classify)
     w = run.world
     express = set(run.notes.express)
-    for arn in run.execs:
+    for arn in list(run.execs) + [a for a in run.notes.status if a not in run.execs]:        # (children launched by the executions too)
         d = last_detail(run, arn)
         if d is None:
             continue
@@ -165,6 +165,32 @@ def run(ctx):
         if express:
             ctx.count("express_runs")
         _sched.run_schedules(ctx, scn, meta, judge, n_random, ["c11", k])
+    # executions that run as synchronous children of another execution (every form of the integration): their own record, notifications and history
+    from lsfverif.checks import c02
+    for k in range(ctx.pick(24, 300)):
+        if not ctx.mine(k):
+            continue
+        rng = ctx.rng("child", k)
+        cname, cfg = configs[k % len(configs)]
+        scn, meta = F.scenario(rng, ["sequential", "fanout-none", "fanout-one"][k % 3], n_exec=1, config=dict(cfg))
+        scn = c02.with_child(scn, "plain")
+        form = ["startExecution.sync:2", "startExecution.sync"][(k // 3) % 2]
+        scn["machines"]["parent"]["asl"]["States"]["Launch"]["Resource"] = "arn:aws:states:local:0123456789:states:" + form
+        ctx.count("config:" + cname); ctx.count("child_execution_runs"); ctx.count("child_form:" + form)
+        _sched.run_schedules(ctx, scn, dict(meta, family="child-" + meta.get("family", "")), judge, n_random, ["c11c", k])
+    # large but legal payloads (the notification carries input and output in full, the record keeps them whatever their size)
+    for k, (n_in, mach) in enumerate([(130000, "pass"), (260000, "pass"), (200000, "shrink"), (2000, "grow"), (130000, "task")]):
+        for cname, cfg in configs[1:3]:
+            if not ctx.mine(k):
+                continue
+            asl = {"pass": {"StartAt": "A", "States": {"A": {"Type": "Pass", "End": True}}},
+                   "shrink": {"StartAt": "A", "States": {"A": {"Type": "Pass", "Result": {"small": 1}, "End": True}}},
+                   "grow": {"StartAt": "A", "States": {"A": {"Type": "Pass", "Result": {"big": "y" * 255000}, "End": True}}},
+                   "task": {"StartAt": "A", "States": {"A": F.T("echo", Next="B"), "B": {"Type": "Wait", "Seconds": 1, "End": True}}}}[mach]
+            scn = {"machines": {"m": {"asl": asl, "type": "STANDARD"}}, "funcs": dict(F.FUNCS), "starts": [{"machine": "m", "name": "big", "input": {"k": "x" * n_in}, "via": "rest" if k % 2 else "event"}],
+                   "config": dict(cfg)}
+            ctx.count("large_payload_runs"); ctx.count("config:" + cname)
+            _sched.run_schedules(ctx, scn, dict(family="large-payload", input_chars=n_in, machine=mach), judge, 0, ["c11big", k])
     # the same story after the engine process was killed and restarted at a random point (the file store loses the execution records, the
     # Redis store keeps them); half of the machines end in a transition to a state that does not exist, so that the first thing the restarted
     # engine does for the execution may be to fail it
